@@ -940,10 +940,11 @@ Qed.
 Lemma model_meets_spec i : spec_ok i (model i) = true.
 Proof.
   unfold spec_ok, model.
-  destruct (trun_sim i (i_ops i) (tinit i) (minit i) (sim_init i)) as [EP _].
-  pose proof (trun_V i (i_ops i) (tinit i) (minit i) (sim_init i) (V_init i)) as HV.
-  destruct (trun i (tinit i) (i_ops i)) as [t ps]. cbn [fst snd] in EP, HV. cbn [o_probes o_views o_alone].
-  rewrite EP, (list_eqb_refl probe_safe probe_safe_refl), mrun_length, Nat.eqb_refl. cbn [andb].
+  destruct (trun_sim i (ops_of i) (tinit i) (minit i) (sim_init i)) as [EP _].
+  pose proof (trun_V i (ops_of i) (tinit i) (minit i) (sim_init i) (V_init i)) as HV.
+  assert (length (ops_of i) = length (i_ops i)) as HLen by apply map_length.
+  destruct (trun i (tinit i) (ops_of i)) as [t ps]. cbn [fst snd] in EP, HV. cbn [o_probes o_views o_alone].
+  rewrite EP, (list_eqb_refl probe_safe probe_safe_refl), mrun_length, HLen, Nat.eqb_refl. cbn [andb].
   rewrite map_length. unfold conn_ids. rewrite seq_length, Nat.eqb_refl, andb_true_r.
   apply orb_true_iff. right.
   rewrite (map_ext _ _ (fun c => view_of_V i t c HV)).
@@ -964,4 +965,22 @@ Proof.
     exists ([TimerFire g; Callback g] ++ [AcceptFail; FinalDisarm; Return]). unfold settle. now rewrite run_app. }
   destruct (top i t o) as [t1 ok]. cbn [fst] in E1. destruct (IH t1) as [es2 E2].
   destruct (trun i t1 ops) as [t2 ps]. cbn [fst] in *. exists (es1 ++ es2). now rewrite run_app, <- E1.
+Qed.
+
+(* ---------- transport details (round-robin talk, per-connection shm segments) are invisible ---------- *)
+Definition with_transport (i : input) (shm : list bool) (ops : list iop) : input :=
+  {| i_unix := i_unix i; i_idle := i_idle i; i_gate := i_gate i; i_hook := i_hook i; i_shm := shm;
+     i_conns := i_conns i; i_ops := ops |}.
+
+Lemma trun_transport i shm ops' ops : forall t, trun (with_transport i shm ops') t ops = trun i t ops.
+Proof.
+  induction ops as [|o ops IH]; intros t; [reflexivity|]. cbn [trun].
+  assert (top (with_transport i shm ops') t o = top i t o) as -> by (destruct o; reflexivity).
+  destruct (top i t o) as [t1 ok]. rewrite IH. reflexivity.
+Qed.
+
+Lemma transport_invisible i shm ops' :
+  map norm_op ops' = map norm_op (i_ops i) -> model (with_transport i shm ops') = model i.
+Proof.
+  intros H. unfold model, ops_of. rewrite trun_transport. cbn [with_transport i_ops]. rewrite H. reflexivity.
 Qed.
